@@ -40,7 +40,18 @@ def main():
     if len(a) >= 3 and a[1] == "--replay":
         with open(a[2]) as fh:
             rec = json.load(fh)
-        ok, detail = mod.replay(rec["sig"])
+        if "crash" in rec:
+            # a harness process that died in the library code: rebuild for the current tree and run the same slice again
+            from lib import build, runner
+            mod.prebuild()
+            c = rec["crash"]
+            path = build.LAST.get(c["binary"])
+            if not path:
+                sys.stderr.write("  cannot locate harness binary %s\n" % c["binary"])
+                return 2
+            ok, detail = runner.replay_crash([path] + c["args"], c["env"], c["timeout"])
+        else:
+            ok, detail = mod.replay(rec["sig"])
         if ok:
             print("VIOLATION property=%s replay=%s" % (prop, a[2]))
             sys.stderr.write("  reproduced: %s :: %s\n" % (rec["sig"], detail))
